@@ -1245,7 +1245,8 @@ def scheduler_fact_bundle(run, cls):
     for meth in ("enter", "recur", "exit"):
         f = ix.method(cls, meth)
         cn = close_result_name(f)
-        kinds = sorted(("from:<close-result>" if (cn and k == "from:" + cn) else k, t.split(" = ")[0].replace("__func__.", "F."))
+        kinds = sorted(("from:<close-result>" if (cn and k == "from:" + cn) else k,
+                        "X." + t.split(" = ")[0].replace("__func__.", "F.").split(".", 1)[1])
                        for k, s, t in done_store_facts(run, f))
         out["done-stores.%s" % meth] = (tuple(kinds), run.site(f))
     return out
